@@ -379,6 +379,8 @@ def generic_main(prop, tier: str, seed: int) -> int:
     per_hour = 3600.0 / max(explore_wall, 1e-6)
     cov.update({
         "evaluations": agg.cases,
+        "cases_per_phase": {k[len("cases_phase_"):]: v for k, v in sorted(agg.extra.items())
+                            if k.startswith("cases_phase_")},
         "runs_per_hour": int(agg.cases * per_hour),
         "seeds_per_hour": int(agg.cases * per_hour),
         "simulated_time": {"unit": "logical steps (no clock in the anchored code)",
